@@ -437,8 +437,9 @@ type c22Fix struct {
 	seenDesc map[string]int
 	spliced  bool
 
-	changes  int // settled changes (cost measure)
-	iters    int // Ensure passes
+	changes  int               // settled changes (cost measure)
+	iters    int               // Ensure passes
+	groups   map[string]string // task id -> connection id (scheduling order)
 	hooksRun []string
 }
 
@@ -483,12 +484,20 @@ func newC22Fix(c *C, root string) *c22Fix {
 	f.interfaceManagerSuite.SetUpTest(c)
 	f.rootDir = dirs.GlobalRootDir
 	f.restore = append(f.restore, assertstest.MockBuiltinBaseDeclaration([]byte(c22BaseDecl)))
-	// the runner visits tasks in a fixed order (hook H2): an injected failure first, then by task id
+	// the runner visits tasks in a fixed order (hook H2): an injected failure first, then by the connection
+	// the task works for (connect/disconnect task and its hooks), then by task id. Task ids alone are not
+	// canonical: batchConnectTasks and Repository.Connections iterate Go maps, so the task sets of several
+	// auto-(dis)connections are created in random order.
+	f.groups = map[string]string{}
 	state.VerifOrderTasks = func(ts []*state.Task) {
 		sort.SliceStable(ts, func(a, b int) bool {
 			fa, fb := ts[a].Kind() == "verif-fail", ts[b].Kind() == "verif-fail"
 			if fa != fb {
 				return fa
+			}
+			ga, gb := f.taskGroup(ts[a]), f.taskGroup(ts[b])
+			if ga != gb {
+				return ga < gb
 			}
 			return c22TaskNum(ts[a]) < c22TaskNum(ts[b])
 		})
@@ -677,6 +686,37 @@ func (f *c22Fix) addHandlers(runner *state.TaskRunner) {
 		snapstate.Set(st, snapsup.InstanceName(), nil)
 		return nil
 	}, nil)
+}
+
+// taskGroup returns the id of the connection a connect/disconnect task or one of its hooks works for
+// ("" for every other task). Called with the state lock held.
+func (f *c22Fix) taskGroup(t *state.Task) string {
+	if g, ok := f.groups[t.ID()]; ok {
+		return g
+	}
+	main := t
+	if t.Kind() == "run-hook" {
+		var ctx map[string]interface{}
+		if err := t.Get("hook-context", &ctx); err == nil {
+			if id, ok := ctx["attrs-task"].(string); ok {
+				if mt := t.State().Task(id); mt != nil {
+					main = mt
+				}
+			}
+		}
+	}
+	g := ""
+	if main.Kind() == "connect" || main.Kind() == "disconnect" {
+		var p interfaces.PlugRef
+		var sl interfaces.SlotRef
+		if main.Get("plug", &p) == nil && main.Get("slot", &sl) == nil {
+			g = (&interfaces.ConnRef{PlugRef: p, SlotRef: sl}).ID()
+		}
+	}
+	if g != "" || (t.Kind() != "run-hook" && t.Kind() != "connect" && t.Kind() != "disconnect") {
+		f.groups[t.ID()] = g
+	}
+	return g
 }
 
 func c22TaskDesc(t *state.Task) string {
